@@ -122,6 +122,12 @@ func runPool(t *testing.T, c *choice.Stream, r *Result, opt RunOpt, lean bool) {
 					panic(err)
 				}
 				blk.Cols = append(blk.Cols, refproto.Column{Name: "tz", Type: alts[c.Draw("pool.rich.tz", len(alts))], Vals: gen.Values(c.Sub("pool.rich.tz.vals"), rt, blk.Rows)})
+				// ... and one is of the type whose codec differs most between the builds
+				urt, err := refproto.ParseType("UUID")
+				if err != nil {
+					panic(err)
+				}
+				blk.Cols = append(blk.Cols, refproto.Column{Name: "u", Type: "UUID", Vals: gen.Values(c.Sub("pool.rich.uuid.vals"), urt, blk.Rows)})
 				rich = append(rich, (&SPacket{Kind: "data", Block: blk}).Encode(cf))
 			}
 		}
